@@ -190,3 +190,12 @@ Theorem C04_erat_model_spec : forall l1 maxKB, 16 <= maxKB -> maxKB <= 8192 ->
   forall s e, 7 <= s -> s <= e -> e <= MAX64 -> erat_model l1 maxKB s e = primes_between s e.
 Proof. exact erat_model_spec. Qed.
 Print Assumptions C04_erat_model_spec.
+
+(** count_primes over the model kernel (2, 3, 5 from the small table + the kernel on [max(start, 7), stop]) is exactly
+    pi(stop) - pi(start - 1), for every configuration and every interval below 2^64: no hypothesis about the sieve *)
+From PS Require Import Proofs.KernelInstP.
+Theorem C04_count_model_kernel : forall l1 maxKB, 16 <= maxKB -> maxKB <= 8192 ->
+  forall start stop, stop <= MAX64 ->
+  N.of_nat (length (sieve_model l1 maxKB start stop)) = count_primes_spec start stop.
+Proof. exact count_model_spec. Qed.
+Print Assumptions C04_count_model_kernel.
